@@ -1,11 +1,10 @@
 (* C11 — flat-integer interface of the model for the correspondence check.
-   input : [0; online; ignore_warnings; has_size; nbytes; nc; fs_m; fs_e; has_fts; fts_m; fts_e]
+   input : [0; online; ignore_warnings; itemsize; nbytes; nc; fs_m; fs_e; has_fts; fts_m; fts_e]
                                                                                  flat binary (Reader / OnlineReader);
-           has_size / has_fts: the meta file has a fileSizeBytes / fileTimeSecs entry
-           (has_size no longer influences anything since 381463f; kept in the encoding, ignored)
+           itemsize: of the `dtype` argument (2 = default int16); has_fts: the meta file has a fileTimeSecs entry
            [1; ignore_warnings; chns; chnc; nc; fs_m; fs_e; has_fts; fts_m; fts_e]   mtscomp branch (.ch announces chns x chnc)
            floats are passed exactly as m * 2^e
-           [2; online; ignore_warnings; nc; fs_m; fs_e; has_fts; fts_m; fts_e; size0; open_flag; (opcode; arg)*]
+           [2; online; ignore_warnings; itemsize; nc; fs_m; fs_e; has_fts; fts_m; fts_e; size0; open_flag; (opcode; arg)*]
                a history on one reader object: constructor on a file of size0 bytes (open=open_flag), then
                operations  0 n = the file now has n bytes,  1 _ = sr.open(),  2 _ = sr.__enter__()
                output: one snapshot after the constructor and after every operation:
@@ -67,15 +66,15 @@ Definition enc_snap (iw : bool) (s : (Z * reader) * option outcome) : list Z :=
 
 Definition run (inp : list Z) : list Z :=
   match inp with
-  | [0; online; iw; hsz; nbytes; nc; fsm; fse; has; ftm; fte] =>
+  | [0; online; iw; isz; nbytes; nc; fsm; fse; has; ftm; fte] =>
       let fs := of_me fsm fse in
-      enc_outcome (iw =? 1) fs (open_bin (online =? 1) nbytes nc (dec_fts has ftm fte) fs)
+      enc_outcome (iw =? 1) fs (open_bin (online =? 1) isz nbytes nc (dec_fts has ftm fte) fs)
   | [1; iw; chns; chnc; nc; fsm; fse; has; ftm; fte] =>
       let fs := of_me fsm fse in
       enc_outcome (iw =? 1) fs (open_cbin chns chnc nc (dec_fts has ftm fte) fs)
-  | 2 :: online :: iw :: nc :: fsm :: fse :: has :: ftm :: fte :: size0 :: oflag :: ops =>
+  | 2 :: online :: iw :: isz :: nc :: fsm :: fse :: has :: ftm :: fte :: size0 :: oflag :: ops =>
       flat_map (enc_snap (iw =? 1))
-        (history (online =? 1) nc (of_me fsm fse) (dec_fts has ftm fte) size0 (oflag =? 1) (dec_ops ops))
+        (history (online =? 1) isz nc (of_me fsm fse) (dec_fts has ftm fte) size0 (oflag =? 1) (dec_ops ops))
   | _ => [-999]
   end.
 
